@@ -120,6 +120,8 @@ class RegexVM:
         self.stack_limit = stack_limit
         self.poll_interval = poll_interval
         self.step_limit = step_limit
+        # Steps taken by all runs of this matcher (see _run)
+        self._steps_since_start = 0
 
         self.ignorecase = "i" in flags
         self.multiline = "m" in flags
@@ -202,9 +204,13 @@ class RegexVM:
         stack: List[Tuple] = []
 
         while True:
-            # Check limits periodically
+            # Check limits periodically. The steps are counted across runs: a
+            # search tries every start position, and a lookbehind every
+            # position before it, each with a run of its own that may take
+            # only a few steps
             step_count += 1
-            if step_count % self.poll_interval == 0:
+            self._steps_since_start += 1
+            if self._steps_since_start % self.poll_interval == 0:
                 if self.poll_callback and self.poll_callback():
                     raise RegexTimeoutError("Regex execution timed out")
 
